@@ -187,6 +187,9 @@ enum Ev {
     /// `fut = client.send_message(again).await`: request `hop` is sent completely and future k is dropped by the assignment,
     /// without having been looked at in between
     RS(u32, usize),
+    /// future k is handed to ANOTHER task, which awaits it from now on (the caller looked at it before, e.g. through a
+    /// `timeout(&mut fut)` that elapsed, and then moved it)
+    AW(usize),
     /// hold: what the peer emits from now on is kept back ...
     H,
     /// ... and delivered in one piece here
@@ -286,6 +289,7 @@ pub fn run(st: &State, t: &mut Toks) -> PResult<String> {
                 let h = t.u32()?;
                 Ev::RS(h, t.usize_dec()?)
             }
+            "AW" => Ev::AW(t.usize_dec()?),
             "H" => Ev::H,
             "U" => Ev::U,
             s => return Err(format!("client event {}", s)),
@@ -326,6 +330,8 @@ pub fn run(st: &State, t: &mut Toks) -> PResult<String> {
             let mut resolved: Vec<Option<String>> = Vec::new();
             let mut inflight: Option<(usize, tokio::task::JoinHandle<SendResult>)> = None;
             let mut held: Option<Vec<u8>> = None;
+            let mut awaited: std::collections::HashMap<usize, tokio::task::JoinHandle<String>> = std::collections::HashMap::new();
+            let mut held_end: Option<String> = None;      // a stream end announced while holding: delivered together with the held octets
             let mut emitted: Vec<u32> = vec![0];      // answers emitted so far, per connection (the end-to-end id of an answer)
             let nev = evs.len();
             for (ei, e) in evs.into_iter().enumerate() {
@@ -379,6 +385,13 @@ pub fn run(st: &State, t: &mut Toks) -> PResult<String> {
                     Ev::U => {
                         if let Some(v) = held.take() {
                             conns[sel].0.push(&v);
+                        }
+                        // ... and the end of the stream right behind them, in the same wake-up of the reader
+                        match held_end.take().as_deref() {
+                            Some("eof") => conns[sel].0.end(false),
+                            Some("reset") => conns[sel].0.end(true),
+                            Some("garbage") => conns[sel].0.push(&[1, 0, 0, 0, 9, 9, 9, 9]),
+                            _ => {}
                         }
                     }
                     Ev::G(k) => conns[conns.len() - 1].0.allow(Some(k)),
@@ -500,6 +513,21 @@ pub fn run(st: &State, t: &mut Toks) -> PResult<String> {
                         }
                         results.push(Some(r));
                     }
+                    Ev::AW(k) => {
+                        let unresolved = !matches!(resolved.get(k), Some(Some(_)));
+                        if unresolved && !dropped.contains(&k) && !awaited.contains_key(&k) {
+                            if let Some(Some(Ok(_))) = results.get(k) {
+                                if let Some(Ok(fut)) = results[k].take() {
+                                    awaited.insert(k, tokio::spawn(async move {
+                                        match fut.await {
+                                            Ok(m) => format!("GOT:{:x}:{:x}", m.get_hop_by_hop_id(), m.get_end_to_end_id()),
+                                            Err(_) => "ERR".to_string(),
+                                        }
+                                    }));
+                                }
+                            }
+                        }
+                    }
                     Ev::Sel(c) => {
                         if c < conns.len() {
                             sel = c;
@@ -536,6 +564,7 @@ pub fn run(st: &State, t: &mut Toks) -> PResult<String> {
                         let c = cut.min(b.len().saturating_sub(1));
                         conns[sel].0.push(&b[..c]);
                     }
+                    Ev::B(kind) if held.is_some() && matches!(kind.as_str(), "eof" | "reset" | "garbage") => held_end = Some(kind),
                     Ev::B(kind) => match kind.as_str() {
                         "eof" => conns[sel].0.end(false),
                         "reset" => conns[sel].0.end(true),
@@ -591,6 +620,18 @@ pub fn run(st: &State, t: &mut Toks) -> PResult<String> {
                 if let Some(Some(tok)) = resolved.get(k) {
                     out.push(' ');
                     out.push_str(tok);
+                    continue;
+                }
+                if let Some(jh) = awaited.remove(&k) {
+                    // the task that awaits it: done by the time the runtime is idle, or never
+                    match tokio::time::timeout(std::time::Duration::from_secs(3600), jh).await {
+                        Ok(Ok(tok)) => {
+                            out.push(' ');
+                            out.push_str(&tok);
+                        }
+                        Ok(Err(_)) => out.push_str(" ERR"),
+                        Err(_) => out.push_str(" PENDING"),
+                    }
                     continue;
                 }
                 match r {
